@@ -17,6 +17,7 @@ RULE = (
     "plus the quick set. Observation: GroupKeyEnvelope.get_kek(KeyIdentifier) in nonce mode and compute_l2_key. Covered pair: KEK must equal the reference chain from the root key; "
     "non-covered pair: must raise within 80 KDF calls / 5 s CPU. A second harness goes through the public API on the sub-lattice: a KeyCache primed by one unprotect via the reference DC (policies: exact position, (L1',31), latest of the L0) then offline unprotect of a reference-encrypted blob at (L1,L2): covered => plaintext, not covered => the library tries the network. Every (shape, request) pair is distinct by construction; non-trivial = the real derivation was entered."
     ' Also one root key id that successively holds 8 different key values in throw-away caches with throw-away key objects (object addresses reused).'
+    ' Also protects on the long-lived cache while the clock steps backwards and forwards across L2 / L1 / L0 boundaries (9 positions, sync and async).'
 )
 ASSUME = ["ref/gkdi.Chain calibrated on the 16 Windows vectors (position (17,13))", "KBKDFHMAC.derive is the library's only KDF primitive (call counter)"]
 BOUND = {"quick": "8^4 boundary sub-lattice x shapes x 4 hashes x 2 key sets", "thorough": "full 32^4 lattice x shapes (SHA512) + quick set"}
